@@ -381,6 +381,15 @@ def conserving_mech(r, ns):
         rx.append((reactants, plist))
     return rx, w
 
+def explosive(y_before, y_after, factor=1e3):
+    """a run whose concentrations grew by orders of magnitude (a conserving mechanism with non-negative values cannot
+    do that; it happens when an un-clamped Rosenbrock run enters negative concentrations and blows up): rounding
+    differences are then amplified beyond any a-priori envelope, and intermediate magnitudes are unknown"""
+    fin = lambda v: v == v and abs(v) != float("inf")
+    b = max([abs(v) for v in y_before if fin(v)] + [1.0])
+    a = max([abs(v) for v in y_after if fin(v)] + [0.0])
+    return a > factor * b
+
 def oracle_c09(c, out):
     s = parse_solve(out) if out else None
     if s is None:
@@ -391,6 +400,9 @@ def oracle_c09(c, out):
     if s["status"] in ("NaNDetected", "InfDetected"):
         return None
     ns, ncell, w = m["ns"], m["ncell"], m["w"]
+    if explosive(m["y"], s["y"]):
+        c.tags.append("explosive_run_skipped")     # run-away growth through negative values: rounding is amplified without bound
+        return None
     for cidx in range(ncell):
         before = sum(w[i] * m["y"][cidx * ns + i] for i in range(ns))
         after = sum(w[i] * s["y"][cidx * ns + i] for i in range(ns))
@@ -440,6 +452,9 @@ def grp_cross_config(a, b):
         return None
     if sa["status"] in ("NaNDetected", "InfDetected"):
         return None     # the State then holds the overflowed attempt: no accuracy is promised
+    if explosive(a.meta["y"], sa["y"]) or explosive(b.meta["y"], sb["y"]):
+        a.tags.append("explosive_run_skipped")
+        return None     # exponential growth amplifies rounding differences beyond the estimate below
     n = max(1, sa["stats"]["steps"])
     rel = max(1e-9, 1e-13 * amplification(a.meta, sa["final"]))
     for i, (u, v) in enumerate(zip(sa["y"], sb["y"])):
@@ -1446,7 +1461,7 @@ def g_c13(r, tier, env, Ls):
         k1 = p["k"][:nrx]; y1 = p["y"][:ns]
         for ncell in (1, r.rng(2, 2 * max(p["L"], 1) + 1)):
             q = dict(p); q["ncell"] = ncell; q["k"] = k1 * ncell; q["y"] = y1 * ncell
-            cs.append(Case(problem_line(q, trace=0), dict(ns=ns, ncell=ncell), "solve-identical", group=(("c13", gid), grp_identical_cells), tags=["identical_cells"]))
+            cs.append(Case(problem_line(q, trace=0), dict(ns=ns, ncell=ncell, y=q["y"]), "solve-identical", group=(("c13", gid), grp_identical_cells), tags=["identical_cells"]))
         gid += 1
     return cs
 
@@ -1466,18 +1481,25 @@ def grp_cell(a, b):
     return None
 
 def grp_identical_cells(a, b):
+    """a = one cell, b = N copies of it: same status and counters (else an accept/reject decision fell within rounding of
+    its threshold -- the shared error norm sums N copies in another order -- and nothing is concluded), and every cell
+    of b equal to the single cell up to rounding relative to the cell's largest concentration"""
     sa, sb = parse_solve(a.impl_out or ""), parse_solve(b.impl_out or "")
     if sa is None or sb is None:
         return None
     ns = a.meta["ns"]
-    if sa["status"] != sb["status"]:
-        return None if abs(sa["stats"]["steps"] - sb["stats"]["steps"]) > 0 else f"identical cells: status {sa['status']} vs {sb['status']}"
+    if sa["status"] != sb["status"] or sa["stats"] != sb["stats"]:
+        b.tags.append("history_diverged")
+        return None
+    if sa["status"] in ("NaNDetected", "InfDetected") or explosive(a.meta["y"], sa["y"]):
+        return None
+    scale = max([abs(v) for v in sa["y"][:ns] if v == v] + [1e-300])
     for cidx in range(b.meta["ncell"]):
         for i in range(ns):
             u = sa["y"][i]; v = sb["y"][cidx * ns + i]
             if (u != u) and (v != v): continue
-            if abs(u - v) > 1e-7 * max(abs(u), abs(v), 1e-30) * max(1, sa["stats"]["steps"]):
-                return f"N identical cells do not evolve like one cell: cell {cidx} species {i}: {v!r} vs {u!r}"
+            if abs(u - v) > 1e-7 * scale * max(1, sa["stats"]["steps"]):
+                return f"N identical cells do not evolve like one cell (identical step histories): cell {cidx} species {i}: {v!r} vs {u!r}"
     return None
 
 SPNAMES = ["O3", "NO", "NO2", "OH", "HO2", "CO", "CH4", "H2O2"]
